@@ -176,6 +176,48 @@ def run(ctx):
                     sig = "build:operator-normal-orders-to-constant"
                 ctx.disagree(sig, f"{cls} built from the expression acts differently from the expression "
                              f"({len(bad)} dets, e.g. {bad[0]})", {**desc, "wfn": wk, "sectors": sorted(w.sectors())})
+        # ---- the source expression survives the conversion, and converting the same object again (also when it is
+        # already in normal order and carries a constant) gives the same Hamiltonian
+        try:
+            import copy as _copy
+            for src_kind in ("as-given", "normal-ordered+constant"):
+                src = _copy.deepcopy(op) if src_kind == "as-given" else normal_ordered(op) + FermionOperator((), 0.75)
+                if not any(len(t_) > 0 and abs(c_) > 0 for t_, c_ in normal_ordered(src).terms.items()):
+                    continue
+                snap = {t_: complex(c_) for t_, c_ in src.terms.items()}
+                ident_s = complex(normal_ordered(src).terms.get((), 0.0))
+                terms_s = U.fermionop_terms(src)
+                for route in ("from_openfermion", "sparse"):
+                    for conv in range(2):
+                        if route == "sparse":
+                            h2 = fqe.get_sparse_hamiltonian(src, conserve_spin=(fam != "gso1"), e_0=e0_arg)
+                        else:
+                            h2 = fqe.get_hamiltonian_from_openfermion(src, norb=norb, conserve_number=True, e_0=e0_arg)
+                        ctx.case(("reconvert", case, src_kind, route, conv))
+                        ctx.count(f"reconvert:{route}")
+                        now = {t_: complex(c_) for t_, c_ in src.terms.items()}
+                        dsc = {**desc, "source": src_kind, "route": route, "conversion": conv + 1,
+                               "src": [[[list(f) for f in t_], [c_.real, c_.imag]] for t_, c_ in snap.items()]}
+                        if now != snap:
+                            ctx.disagree(f"reconvert:source-modified:{route}",
+                                         f"the caller's FermionOperator was modified by conversion #{conv + 1}: "
+                                         f"lost {sorted(set(snap) - set(now))[:3]} changed {[k for k in now if k in snap and now[k] != snap[k]][:3]}", dsc)
+                            break
+                        if abs(complex(h2.e_0()) - (ident_s + e0_arg)) > 1e-12:
+                            ctx.disagree(f"reconvert:e_0:{route}", f"conversion #{conv + 1} of the same operator object has "
+                                         f"e_0 = {h2.e_0()}, expected {ident_s + e0_arg}", dsc)
+                            break
+                        if conv == 1 and type(h2).__name__ != "DiagonalCoulomb":
+                            wk = "single" if fam != "gso1" else "spinbroken"
+                            w = C01.make_wfn(ctx, wk, norb, rng)
+                            want = U.spec_apply(d, norb, U.wfn_entries(w), terms_s, e0_arg)
+                            bad = U.compare_wfn(w.apply(h2), want, tol=1e-9)
+                            if bad:
+                                ctx.disagree(f"reconvert:meaning:{route}", f"the second conversion of the same operator object acts "
+                                             f"differently from the expression ({len(bad)} dets)", dsc)
+        except Exception as exc:
+            if not sig_empty and cls != "DiagonalCoulomb":
+                ctx.disagree(f"reconvert-raises:{type(exc).__name__}", str(exc)[:300], desc)
         # ---- propagation data
         try:
             t = 0.25
